@@ -8,14 +8,12 @@
 //! in a child process (`rvchild routinator …`, the steps of routinator's main.rs).
 
 use std::net::{IpAddr, Ipv4Addr, Ipv6Addr, SocketAddr};
-use std::sync::Arc;
 
 use proptest::prelude::*;
 use routinator::metrics::Metrics;
 use routinator::validity::{RequestList, RouteState, RouteValidity};
 use rpki::resources::addr::Prefix;
 use rpki::resources::asn::Asn;
-use rpki::rtr::server::NotifySender;
 use serde::{Deserialize, Serialize};
 
 use crate::core::*;
@@ -612,37 +610,7 @@ pub fn run(ctx: &Ctx, rep: &mut Report, replay: Option<&serde_json::Value>) {
     let kit = Kit::new();
     let rt = runtime();
     let env = Env { kit: &kit, rt: &rt, ctx };
-    // loopback listener for the batch endpoint (own thread + runtime)
-    let start_listener = || -> Option<(Served, SocketAddr)> {
-        for _ in 0..3 {
-            let dir = ctx.scratch();
-            let mut config = base_config(dir.path(), 2);
-            let addr: SocketAddr = format!("127.0.0.1:{}", free_port()).parse().unwrap();
-            config.http_listen = vec![addr];
-            let served = Served::with_config(dir, config, false);
-            let (history, rtrm, cfg) = (served.history.clone(), served.rtr_metrics.clone(), served.config.clone());
-            let (tx, rx) = std::sync::mpsc::channel();
-            std::thread::spawn(move || {
-                let rt = tokio::runtime::Builder::new_current_thread().enable_all().build().unwrap();
-                rt.block_on(async move {
-                    match routinator::http::http_listener(history, rtrm, None, &cfg, NotifySender::new()) {
-                        Ok(fut) => {
-                            tx.send(true).ok();
-                            fut.await
-                        }
-                        Err(_) => {
-                            tx.send(false).ok();
-                        }
-                    }
-                });
-            });
-            if rx.recv_timeout(std::time::Duration::from_secs(10)) == Ok(true) {
-                return Some((served, addr));
-            }
-        }
-        None
-    };
-    let _ = Arc::new(());
+    let start_listener = || spawn_listener(ctx);
     if let Some(v) = replay {
         let t: Tagged<Case> = serde_json::from_value(v.clone()).expect("replay");
         match t.sub.as_str() {
